@@ -413,7 +413,8 @@ class MelodyModel:
                 raise ValueError(f"Malformed or missing UUID for {target!r}")
 
         for elem in self._loader.xpath(
-            f"//*[@*[contains(., '#{uuid}')] | */@*[contains(., '#{uuid}')]]",
+            f"//*[@*[contains(., '#{uuid}')]"
+            f" | */@*[name() != 'href' and contains(., '#{uuid}')]]",
             roots=[
                 i.root
                 for i in self._loader.trees.values()
